@@ -342,6 +342,12 @@ class OpsMixin:
             ra, rb = run.rec(a.oid), run.rec(b.oid)
             if ra.concrete and rb.concrete:
                 return self.new_list(ra.items + rb.items)
+            if not ra.concrete and not rb.concrete and ra.elem == rb.elem:
+                nm = run.fresh_name("concat")
+                nr = ListRec(None, ra.length + rb.length, ra.elem, None, sym=nm)
+                nr.parts = (a.oid, b.oid)
+                nr.preds = [p_ for p_ in ra.preds if p_ in rb.preds]
+                return VRef(run.alloc(nr), "list")
             raise E.Unsupported("concat of symbolic lists")
         if isinstance(a, VTuple) and isinstance(b, VTuple) and isinstance(op, ast.Add):
             return VTuple(a.items + b.items)
@@ -631,6 +637,24 @@ class OpsMixin:
             nr = ListRec(None, n, r.elem if is_filter else ("any",), None, sym=nm)
             if nr.elem[0] in ("int", "real", "bool", "str", "enum", "any", "datetime", "timedelta"):
                 nr.arr = z3.Array(nm + "#arr", z3.IntSort(), self.sort_of(nr.elem))
+            if is_filter and r.elem[0] == "obj" and g.ifs:
+                # the filtered list: its length is the registered counter for that predicate (if any), every element
+                # satisfies the filter and whatever held for all source elements
+                var = g.target.id
+
+                class Ren(ast.NodeTransformer):
+                    def visit_Name(self, n_):
+                        return ast.copy_location(ast.Name(id="x", ctx=n_.ctx), n_) if n_.id == var else n_
+                import copy as _copy
+                ftexts = [ast.unparse(Ren().visit(_copy.deepcopy(c))) for c in g.ifs]
+                env = {k_: v_ for k_, v_ in self.visible_locals(frame).items() if k_ != var}
+                nr.preds = list(r.preds) + [(t_, env) for t_ in ftexts]
+                base = r.origin or (r.sym, [])
+                nr.origin = (base[0], list(base[1]) + ftexts)
+                if len(ftexts) == 1 and self.contract is not None:
+                    for cn, ptext in self.contract.counters.get(r.elem[1], {}).items():
+                        if ast.unparse(ast.parse(ptext, mode="eval").body) == ftexts[0] and cn in r.cnt:
+                            run.assume(n == r.cnt[cn])
             return VRef(run.alloc(nr), "list")
         if sym is not None:
             return sym
